@@ -32,7 +32,7 @@ def run(ctx):
         parts = 6
         for part in range(parts):
             t = c12.drive(ctx, ["amino-drive", "@OUT@", 6, 300, part, parts], "amino_%d.ndjson" % part)
-            c12.judge(ctx, "Trace_Amino", t, "amino", "sequtil", samples=(100, 600, 190000) if part == 0 else (), heap="10g", timeout=3000)
+            c12.judge(ctx, "Trace_Amino", t, "amino", "sequtil", samples=(100, 600, 190000) if part == 0 else (), heap="14g", timeout=3000, maxset=100000000)
             os.remove(t)
     else:
         t = c12.drive(ctx, ["amino-drive", "@OUT@", 4, 40], "amino.ndjson")
